@@ -53,7 +53,10 @@ NamedFacts(id) ==
     [] id = "-halfpred" -> [floor |-> Fin(-1, 1, 1), ceil |-> Zero(-1), round |-> Zero(-1), s |-> -1, int |-> FALSE]
     [] id = "odd52" -> [floor |-> NamedNum("odd52"), ceil |-> NamedNum("odd52"), round |-> NamedNum("odd52"), s |-> 1, int |-> TRUE]
     [] id = "-odd52" -> [floor |-> NamedNum("-odd52"), ceil |-> NamedNum("-odd52"), round |-> NamedNum("-odd52"), s |-> -1, int |-> TRUE]
-NegId(id) == CASE id = "halfpred" -> "-halfpred" [] id = "-halfpred" -> "halfpred" [] id = "odd52" -> "-odd52" [] id = "-odd52" -> "odd52"
+    \* three62 = 3 * 2^62 = 13835058055282163712: an integer above 2^63 (beyond int64, inside uint64) that is not a power of two
+    [] id = "-three62" -> [floor |-> NamedNum("-three62"), ceil |-> NamedNum("-three62"), round |-> NamedNum("-three62"), s |-> -1, int |-> TRUE]
+    [] id = "three62" -> [floor |-> NamedNum("three62"), ceil |-> NamedNum("three62"), round |-> NamedNum("three62"), s |-> 1, int |-> TRUE]
+NegId(id) == CASE id = "halfpred" -> "-halfpred" [] id = "-halfpred" -> "halfpred" [] id = "odd52" -> "-odd52" [] id = "-odd52" -> "odd52" [] id = "three62" -> "-three62" [] id = "-three62" -> "three62"
 IsP2(a) == a.c = "pow2"
 Pow2(s, e) == [c |-> "pow2", s |-> s, e |-> e]
 \* 2^e as a double: overflow to infinity above 1023, underflow to zero below -1074 (ties-to-even at -1075)
@@ -146,6 +149,8 @@ NamedBracket(id) ==
     [] id = "-halfpred" -> <<Fin(-1, 1, 2), Fin(-1, 1, 4)>>
     [] id = "odd52" -> <<Pow2(1, 52), Pow2(1, 53)>>
     [] id = "-odd52" -> <<Pow2(-1, 53), Pow2(-1, 52)>>
+    [] id = "three62" -> <<Pow2(1, 63), Pow2(1, 64)>>
+    [] id = "-three62" -> <<Pow2(-1, 64), Pow2(-1, 63)>>
 RECURSIVE Cmp(_, _)
 CmpNamed(id, x) ==   \* x is not named, not nan, not unk
   LET br == NamedBracket(id) IN
